@@ -8,7 +8,8 @@ Import ListNotations.
 Definition err_eqb (a b : err) : bool :=
   match a, b with
   | ELattice, ELattice | EZeroDiv, EZeroDiv | EValue, EValue | EIndex, EIndex
-  | EAssert, EAssert | EMissingLatticeOpt, EMissingLatticeOpt => true
+  | EAssert, EAssert | EMissingLatticeOpt, EMissingLatticeOpt
+  | EParseCell, EParseCell | EOutOfModel, EOutOfModel => true
   | _, _ => false
   end.
 
@@ -116,6 +117,27 @@ Definition check_develop (c : develop_case) : bool :=
   let '(ids, dic, (u, fill, ftr, trcl), expected) := c in
   match develop_lattice FS (dic_of dic) ids (mkLatCell u fill ftr trcl), expected with
   | Ok l, Ok l' => list_eqb2 elem_close l l'
+  | Err e, Err e' => err_eqb e e'
+  | _, _ => false
+  end.
+
+(* parse_fill_kw: first argument, the rest of the keyword list in reading
+   order; expected: f_bounds, f_univs, number of parameter tokens taken, what is
+   left of the keyword list *)
+Definition funivs_eqb (a b : funivs) : bool :=
+  match a, b with
+  | FInt x, FInt y => Z.eqb x y
+  | FArr x, FArr y => list_eqb Z.eqb x y
+  | _, _ => false
+  end.
+
+Definition check_fill_kw
+  (c : string * list string * res (option bounds * funivs * nat * list string)) : bool :=
+  let '(first, stack, expected) := c in
+  match parse_fill_kw first stack, expected with
+  | Ok k, Ok (b, u, np, rest) =>
+      option_eqb bounds_eqb (fk_bounds k) b && funivs_eqb (fk_univs k) u
+      && Nat.eqb (List.length (fk_params k)) np && list_eqb String.eqb (fk_rest k) rest
   | Err e, Err e' => err_eqb e e'
   | _, _ => false
   end.
